@@ -759,60 +759,112 @@ func ruleJSONProtocol(c *Ctx) {
 		c.Oblige("J.protocol", strings.Join(m.calls, ",") == "prefix,appendString,punctuate" && m.setsInField, fn.Decl.Pos(), fn.Name(), "NameField protocol",
 			fmt.Sprintf("prefix, inField = true, escaped name, punctuate (found %v, inField set: %v)", m.calls, m.setsInField), nil)
 	}
-	// punctuate: exhaustive over the states with the right separators
-	if fn := p.findFunc("plenccodec", "JSONOutput", "punctuate"); fn != nil {
-		info := fn.Pkg.TypesInfo
-		states := constsOfType(fn.Pkg, "state")
+	// punctuate: exhaustive over the states with the right separators. Decided
+	// with FEAS: the load of the top entry's state is forced to each state in
+	// turn; the constant bytes appended and the state stored on the feasible
+	// paths are what that state does (however the dispatch is written).
+	if f := p.ssaFunc("plenccodec.JSONOutput.punctuate"); f != nil {
+		fpk := p.pkg("plenccodec")
+		states := constsOfType(fpk, "state")
+		stateVal := map[string]constant.Value{}
+		valName := map[string]string{}
+		for n := range states {
+			if k, ok := fpk.Types.Scope().Lookup(n).(*types.Const); ok {
+				stateVal[n] = k.Val()
+				valName[k.Val().ExactString()] = n
+			}
+		}
 		seen := map[string]string{}
 		next := map[string]string{}
-		ast.Inspect(fn.Decl.Body, func(n ast.Node) bool {
-			cc, ok := n.(*ast.CaseClause)
-			if !ok {
-				return true
-			}
-			for _, e := range cc.List {
-				name := constName(info, e)
-				ast.Inspect(cc, func(y ast.Node) bool {
-					switch z := y.(type) {
-					case *ast.CallExpr:
-						if id, ok := z.Fun.(*ast.Ident); ok && id.Name == "append" && len(z.Args) >= 2 {
-							// append(j.data, "lit"...) or append(j.data, 'a', 'b'): the bytes appended
-							sep, all := "", true
-							for _, a := range z.Args[1:] {
-								v := constOf(info, a)
-								switch {
-								case v != nil && v.Kind() == constant.String:
-									sep += constant.StringVal(v)
-								case v != nil && v.Kind() == constant.Int:
-									if i, ok := constant.Int64Val(v); ok && i >= 0 && i < 256 {
-										sep += string([]byte{byte(i)})
-									} else {
-										all = false
-									}
-								default:
-									all = false
-								}
-							}
-							if all {
-								seen[name] += sep
-							}
+		for n := range states {
+			n := n
+			fe := feasibleUnder(f, func(v ssa.Value) (constant.Value, bool) {
+				u, ok := v.(*ssa.UnOp)
+				if !ok || u.Op != token.MUL {
+					return nil, false
+				}
+				fa, ok := u.X.(*ssa.FieldAddr)
+				if ok && fieldName(fa) == "state" {
+					return stateVal[n], true
+				}
+				return nil, false
+			})
+			// the stack is not empty
+			for _, b := range f.Blocks {
+				if !fe.reach[b] {
+					continue
+				}
+				for _, in := range b.Instrs {
+					switch x := in.(type) {
+					case *ssa.Call:
+						if bi, ok := x.Common().Value.(*ssa.Builtin); ok && bi.Name() == "append" && len(x.Common().Args) == 2 {
+							seen[n] += appendedConstBytes(x.Common().Args[1])
 						}
-					case *ast.AssignStmt:
-						if len(z.Lhs) == 1 {
-							if sel, ok := z.Lhs[0].(*ast.SelectorExpr); ok && sel.Sel.Name == "state" {
-								next[name] = constName(info, z.Rhs[0])
+					case *ssa.Store:
+						if fa, ok := x.Addr.(*ssa.FieldAddr); ok && fieldName(fa) == "state" {
+							if k, ok := x.Val.(*ssa.Const); ok && k.Value != nil {
+								next[n] = valName[k.Value.ExactString()]
+							} else {
+								next[n] = "?"
 							}
 						}
 					}
-					return true
-				})
+				}
 			}
-			return true
-		})
+		}
 		ok := len(states) == 3 && seen["stateKey"] == ": " && next["stateKey"] == "stateObjValue" &&
-			seen["stateObjValue"] == ",\n" && next["stateObjValue"] == "stateKey" && seen["stateValue"] == ",\n" && next["stateValue"] == ""
-		c.Oblige("J.protocol", ok, fn.Decl.Pos(), fn.Name(), "punctuate: key→\": \"→value→\",\\n\"→key; array value→\",\\n\"",
+			seen["stateObjValue"] == ",\n" && next["stateObjValue"] == "stateKey" && seen["stateValue"] == ",\n" && (next["stateValue"] == "" || next["stateValue"] == "stateValue")
+		c.Oblige("J.protocol", ok, f.Pos(), "plenccodec.JSONOutput.punctuate", "punctuate: key→\": \"→value→\",\\n\"→key; array value→\",\\n\"",
 			fmt.Sprintf("separators %v transitions %v over %d states", seen, next, len(states)), nil)
 	}
 	c.Floor("J.protocol", 14)
+}
+
+// appendedConstBytes: the constant bytes a variadic append operand stands for
+// ("lit"... or a small array of constant bytes); "?" if not constant.
+func appendedConstBytes(v ssa.Value) string {
+	switch x := v.(type) {
+	case *ssa.Const:
+		if x.Value != nil && x.Value.Kind() == constant.String {
+			return constant.StringVal(x.Value)
+		}
+	case *ssa.Convert:
+		return appendedConstBytes(x.X)
+	case *ssa.Slice:
+		// append(data, 'a', 'b'): new [2]byte with constant stores
+		if al, ok := x.X.(*ssa.Alloc); ok {
+			if arr, ok := deref(al.Type()).Underlying().(*types.Array); ok {
+				out := make([]byte, arr.Len())
+				filled := 0
+				for _, r := range *al.Referrers() {
+					ia, ok := r.(*ssa.IndexAddr)
+					if !ok {
+						continue
+					}
+					ik, ok := ia.Index.(*ssa.Const)
+					if !ok {
+						return "?"
+					}
+					for _, r2 := range *ia.Referrers() {
+						if st, ok := r2.(*ssa.Store); ok {
+							k, ok := st.Val.(*ssa.Const)
+							if !ok || k.Value == nil {
+								return "?"
+							}
+							i, _ := constant.Int64Val(ik.Value)
+							b, _ := constant.Int64Val(k.Value)
+							if i >= 0 && int(i) < len(out) {
+								out[i] = byte(b)
+								filled++
+							}
+						}
+					}
+				}
+				if filled == len(out) {
+					return string(out)
+				}
+			}
+		}
+	}
+	return "?"
 }
